@@ -4,8 +4,8 @@ from ._generic import make, STD_TRUST
 globals().update(
     make(
         pid="C19",
-        props=["JaqalProofs/Props/C19.lean", "JaqalProofs/Props/C19Circuit.lean", "JaqalProofs/Props/C19Parsed.lean"],
-        targets=["JaqalProofs.Props.C19", "JaqalProofs.Props.C19Circuit", "JaqalProofs.Props.C19Parsed"],
+        props=["JaqalProofs/Props/C19.lean", "JaqalProofs/Props/C19Circuit.lean", "JaqalProofs/Props/C19Parsed.lean", "JaqalProofs/Props/C19ParsedFull.lean"],
+        targets=["JaqalProofs.Props.C19", "JaqalProofs.Props.C19Circuit", "JaqalProofs.Props.C19Parsed", "JaqalProofs.Props.C19ParsedFull"],
         diffs=[("harness.agents.time_diff", 1500, 20000), ("harness.agents.c19_edge", 3000, 10000), ("harness.agents.c19_scale", 600, 1500), ("harness.agents.c19_circuit_diff", 3000, 1500)],
         trusted=[
             STD_TRUST,
